@@ -105,6 +105,11 @@ func Generate(ctx context.Context, wd string, env []string, patterns []string, o
 		}
 		copyNonInjectorDecls(g, injectorFiles, pkg.TypesInfo)
 		goSrc := g.frame(opts.Tags)
+		if len(goSrc) == 0 {
+			// No injectors and nothing to copy: there is no output for this
+			// package, not even a header.
+			continue
+		}
 		if len(opts.Header) > 0 {
 			goSrc = append(opts.Header, goSrc...)
 		}
